@@ -76,7 +76,9 @@ class MysqlStream:
 
     async def drain(self) -> None:
         if self._buffer:
-            self.writer.write(self._buffer)
+            # A transport that cannot send everything at once keeps a reference to
+            # what it was given: hand it a copy, the buffer itself is reused
+            self.writer.write(bytes(self._buffer))
             self._buffer.clear()
         await self.writer.drain()
 
